@@ -531,9 +531,13 @@ impl ProcessEvent<ConsensusEvent> for ConsensusThread {
             );
             let mut files_to_delete = list.clone();
 
+            #[cfg(saito_verif)]
+            let load_batch: usize = crate::core::verif_hooks::load_batch();
+            #[cfg(not(saito_verif))]
+            let load_batch: usize = 1000;
             while !list.is_empty() {
                 let file_names: Vec<String> =
-                    list.drain(..std::cmp::min(1000, list.len())).collect();
+                    list.drain(..std::cmp::min(load_batch, list.len())).collect();
                 self.storage
                     .load_blocks_from_disk(file_names.as_slice(), self.mempool_lock.clone())
                     .await;
